@@ -49,6 +49,30 @@ CLAIMED = {
     technique='regex inclusion/emptiness lemmas in z3 on the live patterns + bounded symbolic execution of '
               'analyze_compiler_output + real javac runs',
     design='4/C14'),
+ 'C06': dict(
+    text='(I) Rule lemmas for all type depths: the real _is_type_arg_contained, ParameterizedType/SimpleClassifier/'
+         'WildCardType/TypeParameter/Nothing is_subtype run on leaf types whose sub-judgements are z3 atoms; under the '
+         'induction hypothesis (impl => decl, resp. <=> on the exactness class) z3 proves result => declarative rule '
+         '(resp. <=>) for every truth value of the atoms, every declared variance, projection kind, arity <= 2. '
+         '(II) Bounded: real code on every class table with <=3 (thorough 4) classes and generic classes G, H (K), all '
+         'pairs of ground types of depth 1 (thorough: depth 2 on <=2 classes) vs the declarative relation; reflexivity and '
+         'transitivity reference-free on variance-well-formed tables.',
+    note='trusted: declarative relation vlib/ref.py (interval semantics), leaf/atom stubs, z3; the induction gluing the '
+         'lemmas is a paper argument; exactness only on the class the statement names',
+    technique='assume-guarantee rule lemmas in z3 over the real is_subtype code + bounded symbolic exploration of class '
+              'tables vs declarative reference',
+    design='4/C06'),
+ 'C07': dict(
+    text='Bounded exhaustive exploration: real TypeConstructor.new / substitute_type / to_variance_free / '
+         'to_type_variable_free under a symbolic history (<=2 operations quick, 3 thorough) over 25 class-table shapes '
+         '(nested, projected, bounded, foreign-variable supertypes; K<U, V : bound(U)>), arguments drawn from a pool '
+         'that includes earlier results (aliasing). Supertypes of every type-variable-free result compared transitively '
+         'with an independent substitution on a pre-call snapshot; raw deep snapshots of definitions, arguments and earlier '
+         'results compared after every call. The solver only enumerates selectors here.',
+    note='trusted: reference substitution in vlib/ref.py, raw snapshot function; constructors with >2 parameters and '
+         'deeper nesting outside',
+    technique='bounded symbolic exploration of instantiation/substitution histories vs independent substitution on snapshots',
+    design='4/C07'),
 }
 
 NOT_YET = 'check not built yet in this round (planned per DESIGN.md build order); not claimed'
